@@ -22,9 +22,9 @@ ENGINES = [
     },
     {
         "name": "BoundedEnumerator",
-        "path": "mc/enum.py",
+        "path": "mc/common.py",
         "serves_properties": ["C02", "C03", "C04", "C05", "C06", "C07", "C10", "C11", "C12", "C13", "C14", "C15", "C17", "C18"],
-        "kind_free_text": "complete enumeration of a finite product of input shapes (unit shapes, prefixes, exponents, operators, magnitude classes) against reference models written independently of the code (free abelian group normal forms, exact-arithmetic unit sizes solved from intercepted declarations, closed-form affine / logarithmic / Gaussian formulas)",
+        "kind_free_text": "(pmap/chunked/rotate in mc/common.py, unit-shape spaces in mc/convspace.py and mc/pools.py, oracles in mc/models.py) complete enumeration of a finite product of input shapes (unit shapes, prefixes, exponents, operators, magnitude classes) against reference models written independently of the code (free abelian group normal forms, exact-arithmetic unit sizes solved from intercepted declarations, closed-form affine / logarithmic / Gaussian formulas)",
     },
     {
         "name": "ScheduleExplorer",
@@ -61,9 +61,9 @@ check(
 check(
     "C02",
     "model_checking",
-    "Closure of the real operators (*, /, **n, root) over generator sets inside an exponent box for dimensions, prefixes and units, plus all expression trees up to 3 (quick) / 4 (thorough) leaves; every result is compared by object identity with a table keyed by an independent free-abelian-group normal form: equal normal form <=> same object.",
-    "Bounds: exponent boxes and tree sizes as stated in the evidence; generators include freshly defined base units, named derived units and SI/IEC prefixes; cross-base prefix laws compared numerically at 1e-9.",
-    "exhaustive closure / all expression trees up to a bound vs a free-abelian-group normal form (identity)",
+    "Explicit-state exploration of the group elements (interned objects) reachable by the real operators (*, /, **n, root, prefix application) from generator sets of dimensions, prefixes and units: closure by expression height (height 2 complete from three generator orders; height 3 with one operand of height <= 1, i.e. every expression tree with <= 4 leaves) plus exponent boxes (all ordered pairs) plus the eleven named laws instantiated over everything reached; every transition is compared with an independent free-abelian-group normal form: equal normal form <=> same object.",
+    "Bounds: heights and boxes as stated in the evidence (units at height 3 only in the thorough tier); generators include freshly defined base units, named derived units and SI/IEC prefixes; expressions whose leaves carry prefixes of both bases are compared numerically at 1e-9 (factors exactly). A violation is replayed by re-running the deterministic exploration job that found it.",
+    "explicit-state exploration of reachable group elements (height-bounded closure of real operators) vs a free-abelian-group normal form, object identity",
     "BoundedEnumerator",
     "DESIGN.md §4 C02",
 )
@@ -80,7 +80,7 @@ check(
     "C04",
     "exploration",
     "Every ordered pair of equal-dimension unit shapes (tiers T1-T4 over all shipped modules, powers, prefixes, products, quotients, named derived units vs their spellings) and every connected definition graph on 4 synthetic units: whenever in_unit returns, unit identity and magnitude are compared with sizes solved independently, in exact arithmetic, from the intercepted declarations.",
-    "Tolerance 1e-5 per degree on shipped definitions, exact on power-of-two synthetic systems; units that C09 finds inconsistently defined are excluded and named in the evidence.",
+    "Tolerance 1e-5 per degree on shipped definitions, exact on power-of-two synthetic systems (which also hold opaque speed / frequency units and quotient-defined units in numerators, denominators and cancelling positions); units whose size differs by more than 1e-5 between two derivations from the declarations (C09 finding) and offset scales are excluded and named in the evidence.",
     "exhaustive enumeration of unit-shape pairs and definition-graph configurations vs exact size oracle",
     "BoundedEnumerator",
     "DESIGN.md §4 C04",
@@ -107,7 +107,7 @@ check(
     "C07",
     "exploration",
     "Every ordered pair of equal-dimension one- and two-factor units over a pool drawn from all modules plus synthetic partially-connected systems, through in_unit, +, -, ==, <, sorted: only value / ConversionNotFound (== False, ordering TypeError) outcomes are allowed; the identical case list is executed under python and python -O in subprocesses and the outcome tables must be equal line by line.",
-    "Chains long enough to exhaust the recursion limit (~900 hops) are outside the bound; synthetic chains up to 40 hops included.",
+    "Chains long enough to exhaust the recursion limit (~900 hops) are outside the bound; synthetic chains up to 40 hops, prefixed shapes (prefix on source, target or both) and compound shapes over isolated / partially connected synthetic units are included.",
     "exhaustive enumeration of unit pairs; differential run python vs python -O",
     "BoundedEnumerator",
     "DESIGN.md §4 C07",
@@ -116,7 +116,7 @@ check(
     "C08",
     "model_checking",
     "Explicit-state BFS over all interleavings of equivalence declarations and conversion/comparison queries (each real, on the real caches) up to the depth bound; at every visited state every menu query is evaluated and compared with the same query after the same declarations in a state with no query history (fresh interpreters provide the reference outcomes).",
-    "Bounds: declaration and query menus as in the evidence, length <= 4 (quick) / 6 (thorough); canonical state = declaration sequence + for each query the declaration count at its first execution.",
+    "Bounds: full menu (7 declarations, 18 queries incl. reverse directions and a statically declared system with an asymmetric planner) to depth 3 (quick) / 4 (thorough) plus a probe level (every query appended to every deepest state); core menu (chain of four units + shortcut, 4 queries) to depth 5 / 6 plus probe level; canonical state = declaration sequence + for each query the declaration counts at which it ran; only measured.si is loaded.",
     "explicit-state BFS over declaration/query interleavings vs fresh-state reference",
     "HistoryExplorer",
     "DESIGN.md §4 C08",
@@ -152,7 +152,7 @@ check(
     "C12",
     "exploration",
     "All ordered pairs and triples from per-dimension pools of quantities (separated and exactly-equal re-expressions, int/float/Decimal), levels, measurements and approximately(): reflexivity, symmetry, trichotomy, mirror laws, sorted() of every permutation, hash contract.",
-    "Away from ties by construction.",
+    "Away from ties by construction; pools: length, mass, time, information, area / volume / per-area written as powers of length units several declared hops apart, and a mixed pool with measurements on four temperature scales judged by an interval model in kelvin.",
     "exhaustive enumeration of pairs/triples vs order/interval model",
     "BoundedEnumerator",
     "DESIGN.md §4 C12",
@@ -161,7 +161,7 @@ check(
     "C13",
     "exploration",
     "Every prefix x named unit x exponent, products/quotients over a pool, quantities over them, the full product of alternative spellings, and every import closure of the unit modules (fresh interpreters): Unit.parse(str(u)) is u (or same size and dimension), Quantity.parse(str(q)) == q, spellings agree, never a different physical value.",
-    "Open findings are keyed by failure kind + input-side predicate (see known_findings.json).",
+    "Open findings are keyed by failure kind + input-side predicate (see known_findings.json). Configurations include staged ones (import some modules, full round trip, import the rest, round trip again) so that parse results must follow the registry rather than the parse history.",
     "exhaustive enumeration of prefix x unit x exponent x spelling product and module configurations",
     "BoundedEnumerator",
     "DESIGN.md §4 C13",
@@ -179,7 +179,7 @@ check(
     "C15",
     "exploration",
     "Every interned dimension, prefix and unit, the C13 unit space, and quantities over it with int/float/Decimal magnitudes through pickle (all protocols), copy, deepcopy, the JSON codecs, pydantic and the SQL composite form; plus two-process histories (dump here, load in a fresh interpreter).",
-    "Quantity JSON inherits the C13 findings (unit stored as text).",
+    "Quantity JSON inherits the C13 findings (unit stored as text), keyed by the same input-side classes; the loader process reports unusable interned objects and re-evaluates the defining expression for identity.",
     "exhaustive enumeration of values x codecs, incl. two-process histories",
     "BoundedEnumerator",
     "DESIGN.md §4 C15",
@@ -197,7 +197,7 @@ check(
     "C17",
     "exploration",
     "Every string up to length 4 (quick) / 5 (thorough) over a 22-character alphabet covering every lexer class and 'arbitrary text', every token sequence up to length 7 with extreme lexemes, and all single-token mutations of accepted sequences, through Unit.parse and Quantity.parse: outcome class, determinism, registries unchanged, magnitude type.",
-    "Strings longer than the bound are not covered.",
+    "Strings longer than the bound are not covered; short token sequences are also rendered with the full product of lexemes per position (SI / IEC / byte-based / unknown symbols x small and 400-digit exponents). Registry changes are attributed to the rejected input responsible; accepted inputs are not constrained (as the property states).",
     "exhaustive enumeration of all strings / token sequences up to a bound",
     "BoundedEnumerator",
     "DESIGN.md §4 C17",
@@ -206,7 +206,7 @@ check(
     "C18",
     "exploration",
     "Logarithm families x references (power and root-power, prefixed, non-SI) x level magnitudes x unit choices x magnitude types against the closed-form level model in high-precision Decimal; monotonicity and both round trips.",
-    "Levels clipped to float range (reported).",
+    "Levels clipped to float range (reported); 1e-9 when quantity and reference share a unit, 1e-5 per degree through shipped definitions otherwise; plus every order of first use of several logarithmic units with different references on the same quantity units, without state reset in between.",
     "exhaustive enumeration vs closed-form logarithmic model",
     "BoundedEnumerator",
     "DESIGN.md §4 C18",
